@@ -36,6 +36,9 @@ def gen(rng, tier):
             cg = G.consistent_graph(rng, max_nodes=8)
             r, _ = G.erase(rng, cg, wrong_outputs=(rng.random() < 0.5))
             cons = True
+            if rng.random() < 0.25:
+                # a spare, still untyped Input port that feeds nothing: the rest of the graph is inferred all the same
+                r["nodes"]["spare in"] = {"k": "Input", "args": {"input_type": None}}
         cases.append({"kind": "rand", "recipe": V.enc_recipe(r), "twice": rng.random() < 0.5, "consistent": cons})
     # nodes that were built from ONE types dictionary object (the constructors keep a dict-form argument as it is): inference
     # reaching one of them must not re-type the other, nor the caller's dictionary
@@ -257,15 +260,15 @@ def run(c):
                 fail = f"node {name} is not reachable from an Input but its types/input_shape changed"
                 break
     if not fail and not raised[0]:
-        all_inputs_defined = all(tval(n.input_type, "input") not in ("none", "other")
+        all_inputs_defined = all(tval(n.input_type, "input") not in ("none", "other") and tval(n.output_type, "output") not in ("none", "other")
                                  for n in g.nodes.values() if type(n).__name__ == "Input")
         if all_inputs_defined:
             for name in reach:
                 if name not in g.nodes:
                     continue
                 n = g.nodes[name]
-                if type(n).__name__ == "NIRGraph":
-                    continue
+                if type(n).__name__ in ("NIRGraph", "Input"):
+                    continue        # (an Input is typed by its creator; inference does not derive anything for it)
                 if tval(n.input_type, "input") == "none" or tval(n.output_type, "output") == "none":
                     # only nodes that are the target of a processed edge get types; an Input is typed already
                     fail = f"infer_types() returned normally but reachable node {name} still has an undefined type"
